@@ -575,14 +575,15 @@ class DelimitedType(CompositeType):
         self._extent = int(extent)
         if self._extent % self.alignment_requirement != 0:
             raise InvalidExtentError(
-                "The specified extent of %d bits is not a multiple of %d bits"
-                % (self._extent, self.alignment_requirement)
+                "The specified extent of %s bits is not a multiple of %d bits"
+                % (_expression.Rational(self._extent), self.alignment_requirement)
             )
         if self._extent < inner.extent:
             raise InvalidExtentError(
-                "The specified extent of %d bits is too small for this data type. "
-                "Either compactify the data type or increase the extent at least to %d bits. "
-                "Beware that the latter option may break wire compatibility." % (self._extent, inner.extent)
+                "The specified extent of %s bits is too small for this data type. "
+                "Either compactify the data type or increase the extent at least to %s bits. "
+                "Beware that the latter option may break wire compatibility."
+                % (_expression.Rational(self._extent), _expression.Rational(inner.extent))
             )
 
         delimiter_header_bit_length = self._DEFAULT_DELIMITER_HEADER_BIT_LENGTH  # This may be made configurable later.
